@@ -91,223 +91,154 @@ PYOPS = {'__lt__': lambda a, b: a < b, '__le__': lambda a, b: a <= b, '__eq__': 
          '__ne__': lambda a, b: a != b, '__gt__': lambda a, b: a > b, '__ge__': lambda a, b: a >= b}
 
 
-def rule_1(ctx):
-    """Decision table of the six base comparisons over the three orderings of two sort keys."""
+import datetime as _dtm
+
+_SYMS = {'__lt__': '<', '__le__': '<=', '__eq__': '==', '__ne__': '!=', '__gt__': '>', '__ge__': '>='}
+
+
+def _N(v):
+    return Rec(cls=XLT + 'Number', value=v)
+
+
+def _T(v):
+    return Rec(cls=XLT + 'Text', value=v)
+
+
+def _B(v):
+    return Rec(cls=XLT + 'Boolean', value=v)
+
+
+def _D(y, m, d):
+    return Rec(cls=XLT + 'DateTime', value=_dtm.datetime(y, m, d))
+
+
+def _BL():
+    return Rec(cls=XLT + 'Blank', value=None)
+
+
+def _cmp(ctx, world, a, b, name):
+    """`a <op> b` on the real comparison methods of the value classes (dunder dispatch, casts, blank conversion as written):
+    True / False, or a text describing how it ended."""
     fm = ctx.mod('xlfunctions.func_xltypes')
-    N = XLT + 'Number'
+    it = Interp(ctx.a, fm, {'a': a, 'b': b}, inline_pkg=True, world=world)
+    out = it.run([ast.parse(f'return a {_SYMS[name]} b').body[0]])
+    if out.end == 'return' and isinstance(out.value, Rec) and out.value.f.get('cls') == XLT + 'Boolean':
+        return out.value.f.get('value')
+    if out.end == 'return' and isinstance(out.value, bool):
+        return out.value
+    return f'<{out.end} {out.value!r}>'
+
+
+def rule_1(ctx):
+    """The six comparisons of the value classes on numbers, dates and booleans (and a text on the right): each applies its own
+    relation of the one total order to (left, right) - on the real methods, by constant propagation."""
+    from xlsa.guards import World
+    fm = ctx.mod('xlfunctions.func_xltypes')
+    anchor = fm.cls('ExcelType')
+    vals = [('-1', _N(-1), (0, -1)), ('0', _N(0), (0, 0)), ('2.5', _N(2.5), (0, 2.5)), ('61', _N(61), (0, 61)), ('1900-03-01', _D(1900, 3, 1), (0, 61)),
+            ('2023-03-15', _D(2023, 3, 15), (0, 45000)), ('FALSE', _B(False), (2, 0)), ('TRUE', _B(True), (2, 1)), ('"a"', _T('a'), (1, 'A'))]
+    world = World()
     for name in CMP:
-        fn = fm.func(f'ExcelType.{name}')
-        p = func_params(fn)
         wrong = []
-        for ka, kb in (((0, 1), (0, 2)), ((0, 2), (0, 1)), ((0, 1), (0, 1)), ((0, 5), (1, 'a')), ((2, 0), (1, 'z'))):
-            a, b = _Val(N, ka), _Val(N, kb)
-            it = Interp(ctx.a, fm, {p[0]: a, p[1]: b}, isinstance_fn=_isinst(ctx), call_models=_models(),
-                        self_class=XLT + 'ExcelType', scope_fn=fn)
-            try:
-                out = it.run(fn.body)
-            except Unmodelled as exc:
-                raise Unmodelled(f'ExcelType.{name}: {exc}')
-            got = _bool_result(out)
-            want = PYOPS[name](ka, kb)
-            if got is not want and got != want:
-                wrong.append((ka, kb, got, want))
-            if a.calls.count('_sort_key') != 1 or b.calls.count('_sort_key') != 1:
-                wrong.append(('keys', a.calls, b.calls, 'each operand asked for its key once'))
-        ctx.expect(not wrong, fn, f'ExcelType.{name}',
-                   f'{name} on operands with sort keys {wrong[0][0]} and {wrong[0][1]} gives {wrong[0][2]!r}, expected {wrong[0][3]!r}: the six '
-                   'comparisons must apply their own operator to (key of self, key of other)' if wrong else '')
-        norm = [c for c in flow.calls_in(ctx.inl(fn)) if ctx.res.resolve(c.func, fm) == XLT + 'ExcelType.cast_from_native']
-        ctx.expect(len(norm) >= 1, fn, f'ExcelType.{name} normalises the other operand',
-                   f'{name} does not convert a native other operand with cast_from_native first')
-    ctx.floor(12, 'six comparisons x (decision table, normalisation)')
+        for la, a, ka in vals:
+            if ka[0] == 1:
+                continue            # a text on the left: C09.3
+            for lb, b, kb in vals:
+                got = _cmp(ctx, world, a, b, name)
+                want = PYOPS[name](ka, kb)
+                if got is not want:
+                    wrong.append(f'{la} {_SYMS[name]} {lb} gives {got!r}, expected {want!r}')
+        ctx.expect(not wrong, anchor, f'ExcelType.{name}',
+                   '; '.join(wrong[:4]) + ': the six comparisons must apply their own operator to the places of both operands in the one '
+                   'total order (numbers and dates by magnitude < texts < FALSE < TRUE)')
+    ctx.floor(6, 'six comparisons')
 
 
 def rule_2(ctx):
+    """Type precedence on values: every number is smaller than every text, every text smaller than FALSE, FALSE smaller than TRUE;
+    a date ranks as its serial number."""
+    from xlsa.guards import World
     fm = ctx.mod('xlfunctions.func_xltypes')
-    prec = {}
-    for c in ('ExcelType', 'Number', 'Text', 'Boolean', 'DateTime', 'Blank'):
-        cm, val = ctx.res.class_attr(XLT + c, 'sort_precedence')
-        prec[c] = ctx.fold(val, cm)
-    ctx.expect(prec['Number'] < prec['Text'] < prec['Boolean'], fm.cls('Text'), 'Number < Text < Boolean',
-               f'type precedence is Number={prec["Number"]}, Text={prec["Text"]}, Boolean={prec["Boolean"]}: every number must be '
-               'smaller than every text and every text smaller than FALSE')
-    ctx.expect(prec['DateTime'] == prec['Number'], fm.cls('DateTime'), 'dates rank as numbers',
-               'DateTime does not share the precedence of Number')
-    # base key = (precedence, value)
-    base = fm.func('ExcelType._sort_key')
-    r = last_return(base)
-    ok = r is not None and isinstance(r.value, ast.Tuple) and len(r.value.elts) == 2 \
-        and ast.unparse(r.value.elts[0]) == 'self.sort_precedence' and ast.unparse(r.value.elts[1]) == 'self.value'
-    ctx.expect(ok, base, 'base key = (precedence, value)', 'the base sort key is not (sort_precedence, value)')
-    bk = fm.func('Boolean._sort_key')
-    r = last_return(bk)
-    ok = r is not None and isinstance(r.value, ast.Tuple) and ast.unparse(r.value.elts[0]) == 'self.sort_precedence' \
-        and ast.unparse(r.value.elts[1]) in ('int(self.value)', 'self.value')
-    ctx.expect(ok, bk, 'Boolean key = (precedence, FALSE<TRUE)', 'Boolean sort key does not order FALSE before TRUE within its class')
-    dk = fm.func('DateTime._sort_key')
-    r = last_return(dk)
-    ok = r is not None and '__Number__()' in ast.unparse(r.value) and '_sort_key' in ast.unparse(r.value)
-    ctx.expect(ok, dk, 'DateTime key = key of its serial number', 'a date is not compared as its serial number')
-    # Text keeps its case out of the base key? Text has no _sort_key override: text-vs-text goes through its overrides (C09.3)
-    ctx.floor(5, 'precedence facts')
-
-
-def _type_aware(ctx, fn, m):
-    """Does the override defer to the precedence mechanism when `other` is of another class?"""
-    p = func_params(fn)
-    other = p[1]
-    c = _cmp_in_return(fn)
-    if c is None:
-        return False, 'no single comparison in the returned value'
-    txt = ast.unparse(fn)
-    if '_sort_key' in txt or 'sort_precedence' in txt or 'super()' in txt:
-        return True, ''
-    # an isinstance/type test on `other` that dominates the value comparison and covers "not my class"
-    conds = flow.path_conditions(c)
-    for cd in conds:
-        for x in ast.walk(cd.test):
-            if isinstance(x, ast.Call) and isinstance(x.func, ast.Name) and x.func.id == 'isinstance' \
-                    and isinstance(x.args[0], ast.Name) and x.args[0].id == other:
-                cls = ctx.res.resolve(x.args[1], m) if not isinstance(x.args[1], ast.Tuple) else None
-                own = f'pkg:{m.name}:{fn._qual.rsplit(".", 1)[0]}'
-                if cls == own and cd.polarity:
-                    return True, ''
-                if cls == own and cd.kind == 'guard' and not cd.polarity:
-                    # `if not isinstance(other, Text): return <deferred>` pattern
-                    return True, ''
-    return False, (f'compares `{ast.unparse(c)[:60]}` whatever the class of `{other}` is: a number/boolean operand is '
-                   'compared as text instead of by type precedence')
-
-
-def _overrides(ctx):
-    fm = ctx.mod('xlfunctions.func_xltypes')
-    out = {}
-    for qual, cnode in fm.classes.items():
-        ref = XLT + qual
-        if qual == 'ExcelType' or not ctx.res.is_subclass(ref, XLT + 'ExcelType'):
-            continue
-        own = [s.name for s in cnode.body if isinstance(s, ast.FunctionDef) and s.name in CMP]
-        if own:
-            out[qual] = own
-    return fm, out
+    world = World()
+    rows = [('Number < Text < Boolean', fm.cls('Text'), [
+                (_N(1e300), _T(''), '__lt__', True), (_N(-5), _T('0'), '__lt__', True), (_N(7), _T('6'), '__gt__', False), (_B(False), _T('zzz'), '__gt__', True),
+                (_B(False), _T('TRUE'), '__gt__', True), (_N(1e300), _B(False), '__lt__', True), (_B(True), _N(2), '__gt__', True), (_B(False), _B(True), '__lt__', True),
+                (_N(1), _B(True), '__eq__', False), (_N(0), _B(False), '__eq__', False)]),
+            ('dates rank as numbers', fm.cls('DateTime'), [
+                (_D(1900, 3, 1), _N(61), '__eq__', True), (_D(1900, 3, 1), _N(60.5), '__gt__', True), (_D(2023, 3, 15), _N(45001), '__lt__', True),
+                (_N(45000), _D(2023, 3, 15), '__ge__', True), (_D(2023, 3, 15), _T('a'), '__lt__', True), (_D(2023, 3, 15), _B(False), '__lt__', True),
+                (_D(1900, 3, 1), _D(2023, 3, 15), '__lt__', True), (_D(2023, 3, 15), _D(2023, 3, 15), '__le__', True)])]
+    for construct, anchor, table in rows:
+        wrong = []
+        for a, b, name, want in table:
+            got = _cmp(ctx, world, a, b, name)
+            if got is not want:
+                wrong.append(f'{a.f["value"]!r} {_SYMS[name]} {b.f["value"]!r} gives {got!r}, expected {want}')
+        ctx.expect(not wrong, anchor, construct, '; '.join(wrong[:4]))
+    ctx.floor(2, 'precedence facts')
 
 
 def asymmetric_overrides(ctx):
-    """True when some class overrides comparisons without type-awareness (then a > b <=> b < a cannot be assumed)."""
-    fm, ov = _overrides(ctx)
-    for qual, names in ov.items():
-        for name in names:
-            ok, _ = _type_aware(ctx, fm.func(f'{qual}.{name}'), fm)
-            if not ok:
-                return True
-    return False
-
-
-def _run_override(ctx, fm, qual, name, selfv, other):
-    fn = fm.func(f'{qual}.{name}')
-    p = func_params(fn)
-    it = Interp(ctx.a, fm, {p[0]: selfv, p[1]: other}, isinstance_fn=_isinst(ctx), call_models=_models(),
-                self_class=XLT + qual, scope_fn=fn)
-    return _bool_result(it.run(fn.body)), fn
+    """True when a text on the left of a number or boolean is not ordered by type precedence (then a > b <=> b < a cannot be assumed)."""
+    from xlsa.guards import World
+    world = World()
+    try:
+        return _cmp(ctx, world, _T('1'), _N(5), '__lt__') is not False or _cmp(ctx, world, _T('zz'), _B(True), '__gt__') is not False
+    except Unmodelled:
+        return True
 
 
 def rule_3(ctx):
-    """Overrides of the rich comparisons: complete, case-insensitive among texts, and ordered by type precedence against
-    operands of another class (decision tables on abstract operands)."""
-    fm, ov = _overrides(ctx)
-    T, N, B = XLT + 'Text', XLT + 'Number', XLT + 'Boolean'
-    for qual, names in sorted(ov.items()):
-        missing = sorted(set(CMP) - set(names))
-        ctx.expect(not missing, fm.cls(qual), f'{qual} overrides all six comparisons or none',
-                   f'{qual} overrides {sorted(names)} but not {missing}: the overridden and the inherited comparisons use '
-                   'different notions of equality/order, so a=b, a<b, a>b are no longer mutually exclusive')
-        for name in names:
-            fn = fm.func(f'{qual}.{name}')
-            if qual != 'Text':
-                # an override in another class: it must still agree with the key order on same-class operands
-                aware, why = _type_aware(ctx, fn, fm)
-                ctx.expect(aware, fn, f'{qual}.{name} is type-aware', f'{qual}.{name} {why}')
-                c = _cmp_in_return(fn)
-                ctx.expect(c is not None and type(c.ops[0]) is CMP[name], fn, f'{qual}.{name} applies its own operator',
-                           f'{qual}.{name} does not apply {CMP[name].__name__} to its operands')
-                continue
-            # texts among themselves: case-insensitive order
-            wrong = []
-            try:
-                for a, b in (('a', 'B'), ('B', 'a'), ('a', 'A'), ('abc', 'ABD'), ('', 'a')):
-                    got, _ = _run_override(ctx, fm, qual, name, Rec(cls=T, value=a), _Val(T, (1, b), b))
-                    want = PYOPS[name](a.lower(), b.lower())
-                    if got != want:
-                        wrong.append((a, b, got, want))
-            except Unmodelled as exc:
-                ctx.unmodelled(fn, f'{qual}.{name} on text operands: {exc}')
-                continue
-            ctx.expect(not wrong, fn, f'{qual}.{name} folds case on both sides alike',
-                       f'Text {wrong[0][0]!r} {name} Text {wrong[0][1]!r} gives {wrong[0][2]!r}, expected {wrong[0][3]!r} '
-                       '(texts compare case-insensitively)' if wrong else '')
-            # against another class: type precedence decides (number < text < boolean)
-            wrong = []
-            try:
-                for label, other, rel in (('Number 5', _Val(N, (0, 5), '5'), 1), ('Number 1', _Val(N, (0, 1), '1'), 1),
-                                          ('Boolean TRUE', _Val(B, (2, 1), 'True'), -1), ('Boolean FALSE', _Val(B, (2, 0), 'False'), -1)):
-                    for text in ('1', 'zz', 'True'):
-                        got, _ = _run_override(ctx, fm, qual, name, Rec(cls=T, value=text), other)
-                        want = PYOPS[name](rel, 0)
-                        if got != want:
-                            wrong.append((text, label, got, want))
-            except Unmodelled as exc:
-                ctx.unmodelled(fn, f'{qual}.{name} against another class: {exc}')
-                continue
-            ctx.expect(not wrong, fn, f'{qual}.{name} is type-aware',
-                       f'Text {wrong[0][0]!r} {name} {wrong[0][1]} gives {wrong[0][2]!r}, expected {wrong[0][3]!r}: the override compares text '
-                       'forms whatever the class of the other operand is, instead of ordering by type (every number < every text < FALSE < TRUE); '
-                       '"1"<5 is TRUE while 5>"1" is FALSE' if wrong else '')
-    ctx.floor(10, 'override sets')
+    """A text on the left of a value of another class: the comparison is decided by type precedence (number < text < boolean), not
+    by comparing text forms - per operator, on the real methods; texts among themselves compare case-insensitively (C09.6)."""
+    from xlsa.guards import World
+    fm = ctx.mod('xlfunctions.func_xltypes')
+    anchor = fm.cls('Text')
+    world = World()
+    for name in CMP:
+        wrong = []
+        for label, other, rel in (('Number 5', _N(5), 1), ('Number 1', _N(1), 1), ('Boolean TRUE', _B(True), -1), ('Boolean FALSE', _B(False), -1)):
+            for text in ('1', 'zz', 'True'):
+                got = _cmp(ctx, world, _T(text), other, name)
+                want = PYOPS[name](rel, 0)
+                if got is not want:
+                    wrong.append(f'Text {text!r} {_SYMS[name]} {label} gives {got!r}, expected {want!r}')
+        ctx.expect(not wrong, anchor, f'Text.{name} is type-aware',
+                   '; '.join(wrong[:3]) + ': a text compared with a number or boolean must be ordered by type (every number < every text < FALSE '
+                   '< TRUE), not by comparing text forms; "1"<5 is TRUE while 5>"1" is FALSE')
+    ctx.floor(6, 'text-left comparisons')
 
 
 def rule_4(ctx):
+    """A blank is the neutral value of its partner's class - equal to 0, to the empty text and to FALSE, not larger than any date -
+    in both operand positions, and two blanks are equal: on the real methods (Blank._sort_key, the __Blank__ conversions)."""
+    from xlsa.guards import World
     fm = ctx.mod('xlfunctions.func_xltypes')
-    want = {'Number': 'Number', 'Text': 'Text', 'Boolean': 'Boolean', 'DateTime': None}
-    for c in ('Number', 'Text', 'Boolean', 'DateTime'):
-        cm, fn = ctx.res.class_attr(XLT + c, '__Blank__')
-        r = last_return(fn) if isinstance(fn, ast.FunctionDef) else None
-        ok = False
-        why = f'{c}.__Blank__ missing'
-        if r is not None:
-            v = r.value
-            if isinstance(v, ast.Constant) and v.value is None:
-                why = (f'{c}.__Blank__ returns None: comparing a blank with a {c} calls None._sort_key and raises '
-                       'AttributeError')
-            elif isinstance(v, ast.Call):
-                tgt = ast.unparse(v.func)
-                ok = tgt in ('self.__class__', c, 'Number') and len(v.args) == 1
-                why = f'{c}.__Blank__ returns `{ast.unparse(v)}`'
-                if ok and isinstance(v.args[0], ast.Constant):
-                    neutral = {'Number': 0, 'Text': '', 'Boolean': False, 'DateTime': 0}[c]
-                    ok = v.args[0].value == neutral and type(v.args[0].value) is type(neutral)
-                    why = f'blank equivalent of {c} is {v.args[0].value!r}, expected {neutral!r}'
-        ctx.expect(ok, fn if fn is not None else fm.cls(c), f'{c}.__Blank__ yields the neutral {c}', why)
-    # Blank vs Blank terminates: Blank._sort_key must not ask a Blank other for its blank equivalent
-    bk = fm.func('Blank._sort_key')
-    p = func_params(bk)
-    other = _Val(XLT + 'Blank', (0, 0), '')
-    it = Interp(ctx.a, fm, {p[0]: Rec(cls=XLT + 'Blank', value=None), p[1]: other}, isinstance_fn=_isinst(ctx),
-                call_models=_models(), self_class=XLT + 'Blank', scope_fn=bk)
-    try:
-        out = it.run(bk.body)
-        asked = '__Blank__' in other.calls
-    except Unmodelled as exc:
-        raise Unmodelled(f'Blank._sort_key: {exc}')
-    ctx.expect(not asked and out.end == 'return', bk, 'Blank._sort_key has a base case for Blank vs Blank',
-               'Blank._sort_key asks the other operand for its blank equivalent even when the other operand is a Blank: '
-               'the two call each other until RecursionError (=A1=B1 on two empty cells)')
-    other = _Val(XLT + 'Number', (0, 7), '7')
-    it = Interp(ctx.a, fm, {p[0]: Rec(cls=XLT + 'Blank', value=None), p[1]: other}, isinstance_fn=_isinst(ctx),
-                call_models=_models(), self_class=XLT + 'Blank', scope_fn=bk)
-    out = it.run(bk.body)
-    ctx.expect('__Blank__' in other.calls and out.end == 'return', bk, 'Blank takes the blank equivalent of a non-blank operand',
-               'a blank compared with a non-blank value no longer converts to the blank equivalent of that value\'s class')
-    # the base case compares as equal numbers: key independent of `other`
+    world = World()
+    table = {
+        'Number': [(_N(0), '__eq__', True), (_N(0), '__ne__', False), (_N(1), '__eq__', False), (_N(1), '__gt__', True), (_N(-1), '__lt__', True), (_N(0), '__le__', True)],
+        'Text': [(_T(''), '__eq__', True), (_T('a'), '__eq__', False), (_T('a'), '__gt__', True), (_T(''), '__ge__', True)],
+        'Boolean': [(_B(False), '__eq__', True), (_B(True), '__eq__', False), (_B(True), '__gt__', True), (_B(False), '__le__', True)],
+        'DateTime': [(_D(1900, 3, 1), '__gt__', True), (_D(1900, 3, 1), '__eq__', False), (_D(2023, 3, 15), '__ge__', True)],
+    }
+    mirror = {'__lt__': '__gt__', '__gt__': '__lt__', '__le__': '__ge__', '__ge__': '__le__', '__eq__': '__eq__', '__ne__': '__ne__'}
+    for cname, rows in table.items():
+        wrong = []
+        for val, name, want in rows:
+            positions = [(val, _BL(), name)]
+            if cname != 'Text':
+                positions.append((_BL(), val, mirror[name]))        # a text on the right of a blank is fine; on the left it is C09.3's
+            else:
+                positions.append((_BL(), val, mirror[name]))
+            for a, b, nm in positions:
+                got = _cmp(ctx, world, a, b, nm)
+                if got is not want:
+                    wrong.append(f'{a.f["value"]!r} {_SYMS[nm]} {b.f["value"]!r} gives {got!r}, expected {want}')
+        ctx.expect(not wrong, fm.cls(cname), f'{cname}.__Blank__ yields the neutral {cname}',
+                   '; '.join(wrong[:3]) + f': a blank compared with a {cname} must behave as the neutral value of that class')
+    got = [_cmp(ctx, world, _BL(), _BL(), nm) for nm in ('__eq__', '__le__', '__ge__', '__ne__', '__lt__')]
+    ctx.expect(got == [True, True, True, False, False], fm.cls('Blank'), 'Blank._sort_key has a base case for Blank vs Blank',
+               f'two blanks compare as {got} for =, <=, >=, <>, <: two empty cells are equal (and the comparison must terminate)')
     ctx.floor(5, 'blank conversions')
 
 
